@@ -41,44 +41,27 @@ func runC13(r *core.Run) {
 				return true
 			})
 		},
-		func(c c13Pack) core.Outcome {
-			src := c.Seq.B()
-			orig := bytes.Clone(src)
-			dst := dstVariants()[c.Dst]
-			dstCopy := bytes.Clone(dst)
-			want, _ := ref.Pack2Bit(src)
-			var got []byte
-			if p := catch(func() { got = sequtil.DNATo2Bit(dst, src) }); p != "" {
-				return core.Failf("DNATo2Bit(%q) panicked: %s", src, p)
+		checkPack)
+
+	core.Clause(r, "pack-unpack-long", core.Opts{Rule: "position-dependent DNA strings (mixed case) of every length 0..200 and 1000, 4095..4098, 65535..65538 x 3 dst variants; non-trivial = all"},
+		func(emit func(c13Pack) bool) {
+			var lens []int
+			for l := 6; l <= 200; l++ {
+				lens = append(lens, l)
 			}
-			if len(got) != len(dstCopy)+(len(src)+3)/4 {
-				return core.Failf("DNATo2Bit(dst len %d, %q) returned %d bytes, want %d", len(dstCopy), src, len(got), len(dstCopy)+(len(src)+3)/4)
+			lens = append(lens, 1000, 4095, 4096, 4097, 4098, 65535, 65536, 65537, 65538)
+			for _, l := range lens {
+				b := make([]byte, l)
+				for i := range b {
+					b[i] = "aAcCgGtT"[(i*3+i/8+l)%8]
+				}
+				for d := 0; d < 3; d++ {
+					if !emit(c13Pack{core.S(b), d}) {
+						return
+					}
+				}
 			}
-			if !bytes.Equal(got[:len(dstCopy)], dstCopy) || !bytes.Equal(dst, dstCopy) {
-				return core.Failf("DNATo2Bit(%q) changed existing dst content: %x -> %x", src, dstCopy, got[:len(dstCopy)])
-			}
-			if !bytes.Equal(got[len(dstCopy):], want) {
-				return core.Failf("DNATo2Bit(dst=%x, %q) appended %x, want %x", dstCopy, src, got[len(dstCopy):], want)
-			}
-			if !bytes.Equal(src, orig) {
-				return core.Failf("src modified")
-			}
-			// unpack: upper-case s + 'A' padding, appended to a dst
-			dst2 := dstVariants()[(c.Dst+1)%3]
-			dst2Copy := bytes.Clone(dst2)
-			var un []byte
-			if p := catch(func() { un = sequtil.DNAFrom2Bit(dst2, want) }); p != "" {
-				return core.Failf("DNAFrom2Bit(%x) panicked: %s", want, p)
-			}
-			exp := bytes.ToUpper(orig)
-			for len(exp)%4 != 0 {
-				exp = append(exp, 'A')
-			}
-			if !bytes.Equal(un, append(bytes.Clone(dst2Copy), exp...)) {
-				return core.Failf("DNAFrom2Bit(dst=%q, %x) = %q, want %q", dst2Copy, want, un, append(dst2Copy, exp...))
-			}
-			return core.Outcome{Class: fmt.Sprint("len%4=", len(src)%4), Nontrivial: len(src) >= 2, Evals: 2}
-		})
+		}, checkPack)
 
 	core.Clause(r, "packed-roundtrip", core.Opts{Rule: "the empty string, all 256 packed bytes and all 65536 byte pairs: DNATo2Bit(DNAFrom2Bit(p)) == p and DNAFrom2Bit(p) == reference expansion; non-trivial = all non-empty"},
 		func(emit func(c13Packed) bool) {
@@ -175,4 +158,43 @@ func runC13(r *core.Run) {
 			}
 			return core.OK("panics", true)
 		})
+}
+
+func checkPack(c c13Pack) core.Outcome {
+	src := c.Seq.B()
+	orig := bytes.Clone(src)
+	dst := dstVariants()[c.Dst]
+	dstCopy := bytes.Clone(dst)
+	want, _ := ref.Pack2Bit(src)
+	var got []byte
+	if p := catch(func() { got = sequtil.DNATo2Bit(dst, src) }); p != "" {
+		return core.Failf("DNATo2Bit(%q) panicked: %s", src, p)
+	}
+	if len(got) != len(dstCopy)+(len(src)+3)/4 {
+		return core.Failf("DNATo2Bit(dst len %d, %q) returned %d bytes, want %d", len(dstCopy), src, len(got), len(dstCopy)+(len(src)+3)/4)
+	}
+	if !bytes.Equal(got[:len(dstCopy)], dstCopy) || !bytes.Equal(dst, dstCopy) {
+		return core.Failf("DNATo2Bit(%q) changed existing dst content: %x -> %x", src, dstCopy, got[:len(dstCopy)])
+	}
+	if !bytes.Equal(got[len(dstCopy):], want) {
+		return core.Failf("DNATo2Bit(dst=%x, %q) appended %x, want %x", dstCopy, trunc(string(src), 80), trunc(string(got[len(dstCopy):]), 80), trunc(string(want), 80))
+	}
+	if !bytes.Equal(src, orig) {
+		return core.Failf("src modified")
+	}
+	// unpack: upper-case s + 'A' padding, appended to a dst
+	dst2 := dstVariants()[(c.Dst+1)%3]
+	dst2Copy := bytes.Clone(dst2)
+	var un []byte
+	if p := catch(func() { un = sequtil.DNAFrom2Bit(dst2, want) }); p != "" {
+		return core.Failf("DNAFrom2Bit(%x) panicked: %s", want, p)
+	}
+	exp := bytes.ToUpper(orig)
+	for len(exp)%4 != 0 {
+		exp = append(exp, 'A')
+	}
+	if !bytes.Equal(un, append(bytes.Clone(dst2Copy), exp...)) {
+		return core.Failf("DNAFrom2Bit(dst=%q, %x) = %q, want %q", dst2Copy, want, un, append(dst2Copy, exp...))
+	}
+	return core.Outcome{Class: fmt.Sprint("len%4=", len(src)%4), Nontrivial: len(src) >= 2, Evals: 2}
 }
